@@ -1,7 +1,8 @@
-import N2k.Model.Handlers
+import N2k.Model.HandlersRx
 import Driver.Util
 -- engine: handlers
-/-! Engine `handlers` (C14): executes `N2k.Handlers.step` / `onFrame` of the model on the harness op lines. -/
+/-! Engine `handlers` (C14): executes the composed node model `N2k.Handlers.nodeStep` / `nodeRun` (receive path of C02 +
+handler list) on the harness op lines; frames are rebuilt byte for byte as the harness injects them. -/
 namespace Driver.Handlers
 open N2k.Handlers Driver
 
@@ -61,52 +62,128 @@ def allSome : List (Option Nat) → Option (List Nat)
   | none :: _ => none
   | some a :: t => (allSome t).map (a :: ·)
 
-def step (s : Option World) (w : List String) : Option World × String :=
+/-! ### the frames the harness injects (same bytes as `inject` / `injectTp` / the `fp` op of harness/handlers.cpp) -/
+
+def canId (prio pgn src dst : Nat) : Nat :=
+  prio * 2 ^ 26 + pgn * 256 + src + (if (pgn / 256) % 256 < 240 then dst * 256 else 0)
+
+def mkFrame (prio pgn src : Nat) (bytes : List Nat) : N2k.Rx.Frame :=
+  N2k.Rx.decode (canId prio pgn src 255) bytes.length bytes
+
+/-- one complete single-frame message (or a lone TP frame) of the given PGN -/
+def injectFrame (p : Nat) : N2k.Rx.Frame :=
+  if p = 59904 then mkFrame 6 p 0x23 [0x00, 0xEE, 0x00]
+  else if p = 60928 then mkFrame 6 p 0x42 [0x11, 0x22, 0x33, 0x44, 0x00, 0x82, 0x32, 0xC0]
+  else if p = 60416 then mkFrame 6 p 0x23 [255, 0xff, 0xff, 0xff, 0xff, 0x00, 0xF2, 0x01]
+  else if p = 60160 then mkFrame 6 p 0x23 [1, 0xff, 0xff, 0xff, 0xff, 0xff, 0xff, 0xff]
+  else if isFp p then mkFrame 6 p 0x23 [0x40, 4, 1, 2, 3, 4, 0xff, 0xff]
+  else mkFrame 6 p 0x23 [1, 2, 3, 4, 5, 6, 7, 8]
+
+def fpFrame (p src len : Nat) (k b0 : Nat) : N2k.Rx.Frame :=
+  if b0 % 32 = 0 then mkFrame 6 p src ([b0, len % 256] ++ (List.range 6).map fun j => (j + 2 + k) % 256)
+  else mkFrame 6 p src (b0 :: (List.range 7).map fun j => (16 * k + j + 1) % 256)
+
+def tpFrames (p : Nat) : List N2k.Rx.Frame :=
+  [mkFrame 7 60416 0x31 [32, 9, 0, 2, 0xff, p % 256, (p / 256) % 256, (p / 65536) % 256],
+   mkFrame 7 60160 0x31 [1, 1, 2, 3, 4, 5, 6, 7], mkFrame 7 60160 0x31 [2, 8, 9, 0xff, 0xff, 0xff, 0xff, 0xff]]
+
+/-- engine state: the composed node model and the harness's virtual clock -/
+structure ES where
+  n : Node
+  now : Nat
+
+def cfg : BusId → N2k.Rx.Cfg := fun _ => {}
+
+/-- same receive state with the slot maps stored as tables (see `compact`) -/
+def compactRx (rx : BusId → N2k.Rx.St) : BusId → N2k.Rx.St :=
+  let sts := ((List.range nBus).map fun b =>
+    let st := rx b
+    let slots := ((List.range st.N).map st.slot).toArray
+    ({ N := st.N, slot := fun j => slots.getD j N2k.Rx.emptySlot } : N2k.Rx.St)).toArray
+  fun b => sts.getD b (N2k.Rx.init 5)
+
+/-- harness `reset`: `FreeMessage()` on every receive slot of both buses -/
+def freeAll (rx : BusId → N2k.Rx.St) : BusId → N2k.Rx.St :=
+  fun b => { rx b with slot := fun j => N2k.Rx.freeSlot ((rx b).slot j) }
+
+/-- run events of the composed model; total callback runs and handlers called -/
+def runEvs (es : ES) (evs : List Ev) : Option (ES × Nat × List Id) :=
+  match nodeRun cfg es.n evs with
+  | none => none
+  | some (n', calls) =>
+    let cs := calls.filterMap id
+    some ({ es with n := n' }, (cs.map (·.cb)).foldl (· + ·) 0, cs.flatMap (·.hs))
+
+/-- `ParseMessages` at the next millisecond with the given frames queued -/
+def deliver (es : ES) (b : BusId) (fs : List N2k.Rx.Frame) (extra : List Ev := []) : Option (ES × Nat × List Id) :=
+  let es1 := { es with now := es.now + 1 }
+  runEvs es1 (fs.map (fun f => Ev.frame b es1.now f) ++ extra)
+
+def step (s : Option ES) (w : List String) : Option ES × String :=
   match s with
   | none => (none, "fault")
-  | some wd =>
+  | some es =>
+    let wd := es.n.w
     match w with
     | "reset" :: ps => match allSome (ps.map nat?) with
       | some l => if l.length > maxH then (s, "bad-op") else
         -- destroy everything, then `new 0 p0`, `new 1 p1`, ...
         match (reset wd).bind fun w0 => run w0 ((List.range l.length).zip l |>.map fun (h, p) => Op.new h p none) with
-        | some w' => (some w', "ok")
+        | some w' => (some { es with n := ⟨w', compactRx (freeAll es.n.rx)⟩ }, "ok")
         | none => (none, "fault")
       | none => (s, "bad-op")
     | ["msg", b, p] => match bid? b, pgn? p with
-      | some b, some p => (s, showCalls (onFrame wd b (loneFrame p)))
+      | some b, some p => match deliver es b [injectFrame p] with
+        | some (es', c, l) => (some es', showCalls (some (c, l)))
+        | none => (none, "fault")
       | _, _ => (s, "bad-op")
     | ["tp", b, p] => match bid? b, pgn? p with
       | some b, some p => if isTp p then (s, "bad-op") else
-        -- TP.CM(BAM), TP.DT 1: not ready; TP.DT 2 completes the transported message
-        match onFrame wd b .notReady, onFrame wd b .notReady, onFrame wd b (.ready p) with
-        | some (c1, l1), some (c2, l2), some (c3, l3) => (s, showCalls (some (c1 + c2 + c3, l1 ++ l2 ++ l3)))
-        | _, _, _ => (s, "fault")
+        -- TP.CM(BAM) takes a slot in the receive model; the completion of the transfer by the second TP.DT is the
+        -- model's INPUT event `tpDone`
+        match deliver es b (tpFrames p) [Ev.tpDone b ⟨7, p, 0x31, 255, 9, [1, 2, 3, 4, 5, 6, 7, 8, 9]⟩] with
+        | some (es', c, l) => (some es', showCalls (some (c, l)))
+        | none => (none, "fault")
       | _, _ => (s, "bad-op")
     | ["fp", b, p, src, len, frames, flags] =>
-      -- the completion decision of every frame is an INPUT of the model (flags, from the harness's reference receiver)
+      -- `flags` (the harness's reference receiver) are not used: completion is decided by the receive model
       match bid? b, pgn? p, nat? src, nat? len, allSome ((frames.splitOn ",").map byte?) with
       | some b, some p, some src, some len, some fr =>
         let fl := flags.toList
         if ¬ isFp p ∨ src > 251 ∨ len > 223 ∨ fr.length > 40 ∨ fl.length ≠ fr.length ∨ fl.any (fun c => c ≠ '0' ∧ c ≠ '1') then (s, "bad-op") else
-        let rs := fl.map fun c => onFrame wd b (if c = '1' then .ready p else .notReady)
-        if rs.any Option.isNone then (s, "fault") else
-        let rs := rs.filterMap id
-        (s, showCalls (some ((rs.map (·.1)).foldl (· + ·) 0, rs.flatMap (·.2))))
+        let r := ((List.range fr.length).zip fr).foldl (fun (acc : Option (ES × Nat × List Id)) (kb : Nat × Nat) =>
+          match acc with
+          | none => none
+          | some (e, c, l) => match deliver e b [fpFrame p src len kb.1 kb.2] with
+            | none => none
+            | some (e', c', l') => some (e', c + c', l ++ l')) (some (es, 0, []))
+        match r with
+        | some (es', c, l) => (some es', showCalls (some (c, l)))
+        | none => (none, "fault")
       | _, _, _, _, _ => (s, "bad-op")
     | "probe" :: ps => match allSome (ps.map pgn?) with
       | some l => if l.isEmpty ∨ l.any isTp then (s, "bad-op") else
-        (s, " | ".intercalate (l.flatMap fun p => (List.range nBus).map fun b => showCalls (onFrame wd b (loneFrame p))))
+        let r := (l.flatMap fun p => (List.range nBus).map fun b => (p, b)).foldl
+          (fun (acc : Option (ES × List String)) (pb : Nat × Nat) =>
+            match acc with
+            | none => none
+            | some (e, out) => match deliver e pb.2 [injectFrame pb.1] with
+              | none => none
+              | some (e', c, hs) => some (e', out ++ [showCalls (some (c, hs))])) (some (es, []))
+        match r with
+        | some (es', out) => (some es', " | ".intercalate out)
+        | none => (none, "fault")
       | none => (s, "bad-op")
     | _ => match parseOp w with
       | none => (s, "bad-op")
       | some op =>
         if op.usable wd then
-          match apply wd op with
-          | some w' => (some w', "ok")
+          match nodeStep cfg es.n (.op op) with
+          | some (n', _) => (some { es with n := n' }, "ok")
           | none => (none, "fault")
         else (s, "bad-op")
 
-def main : IO Unit := loop step (some World.init)
+/-- both bus objects were polled for 700 ms each before the first op: the virtual clock stands at 1400 -/
+def main : IO Unit := loop step (some ⟨⟨World.init, fun _ => N2k.Rx.init 5⟩, 1400⟩)
 
 end Driver.Handlers
